@@ -122,7 +122,7 @@ func NewAppA() (*AppA, error) {
 		return nil, err
 	}
 	x := &AppA{TxCfg: authtx.NewTxConfig(cdc, authtx.DefaultSignModes), Height: 0, Now: T0, seq: map[int]uint64{}, accNum: map[int]uint64{}}
-	x.B = &Base{App: a, K: a.FundraisingKeeper, DistrAddr: authtypes.NewModuleAddress(distrtypes.ModuleName), GovAddr: a.FundraisingKeeper.GetAuthority()}
+	x.B = &Base{App: a, K: a.FundraisingKeeper, DistrAddr: authtypes.NewModuleAddress(distrtypes.ModuleName), GovAddr: authtypes.NewModuleAddress("gov").String()}
 	for i := 0; i < NumAccounts; i++ {
 		x.accNum[i] = uint64(i)
 	}
@@ -269,7 +269,7 @@ func (x *AppA) Feed(o Op) {
 		x.cur = T0.Add(1)
 	}
 	switch o.Kind {
-	case OpBlock:
+	case OpBlock, OpFaultBlock: // faults are injected at keeper level only
 		x.flush()
 		x.cur = o.Time
 		x.opened = false
